@@ -33,6 +33,14 @@ def oracle(c, out):
                 return ("loc-rib-content", "%s: unexpected %s missing %s" % (pf, sorted(extra), sorted(missing)))
             if got and o.get("best", {}).get(pf) != [0]:
                 return ("best-flag", "%s: best flags at %s, the best path is the first one" % (pf, o.get("best", {}).get(pf)))
+        # the best-path stream, replayed in order by a consumer, reproduces the current best-path table
+        wt = o.get("watch")
+        if wt is not None:
+            expb = {pf: tuple(v[0]) for pf, v in o["rib"].items() if v}
+            gotb = {pf: tuple(v) for pf, v in wt.items()}
+            if expb != gotb:
+                pf = sorted(set(expb) | set(gotb), key=lambda k: expb.get(k) == gotb.get(k))[0]
+                return ("best-path-stream", "%s: the replayed stream says %s, the table's best path is %s" % (pf, gotb.get(pf), expb.get(pf)))
         # table summaries and lookups agree with the content
         sm = o.get("summary")
         if sm:
@@ -125,9 +133,9 @@ def run_ap6(ctx, proof):
 def run(ctx):
     return spkcommon.run(ctx, "C02", oracle, "handleUpdate/propagateUpdate/dropAdjRIBIn/Calculate vs Speaker.Model.step",
                          ["the model has one path-id per source and IPv4 unicast only; ADD-PATH receive is exercised over IPv6 unicast (MP_REACH / MP_UNREACH) by an oracle-only scenario family; no import policy",
-                          "table summaries (GetTable of the global table and of every Adj-RIB-In) and exact / longer / shorter lookups are compared with the content by the direct oracle at every observation; the best-path watcher stream is not checked",
+                          "table summaries (GetTable of the global table and of every Adj-RIB-In) and exact / longer / shorter lookups are compared with the content by the direct oracle at every observation; the best-path stream (WatchEvent with WatchBestPath) is consumed during every scenario and its replay is compared with the best path of every destination",
                           "events are applied one at a time (quiescent speaker between events)"],
-                         fields=("adjin", "counters", "rib"), extra=[run_ap6])
+                         fields=("adjin", "counters", "rib"), extra=[run_ap6], watch=True)
 
 
 def replay(ctx, path):
